@@ -260,6 +260,33 @@ def random_hist(rnd, n, length):
     return h
 
 
+def targeted_hists():
+    """deterministic histories around the eviction and revival instants (what random histories only sample): server 1 fails,
+    uses up its retries, a gap of G ticks passes BEFORE the evicting call, the next calls follow at once / exactly at /
+    just after dead_timeout; then the server either stays down or has recovered"""
+    out = []
+    for ra in (0, 1, 2):
+        for rt, dt in ((1, 2), (1, 4), (2, 6)):
+            for gap in (0, dt - 1, dt, dt + 1, 2 * dt + 1):
+                for back in ("down", "up-at-once", "up-late"):
+                    for wait in (dt - 1, dt, dt + 1):
+                        h = [["health", 1, "os"], ["call", 1]]
+                        for _ in range(ra):
+                            h += [["tick"]] * (rt + 1) + [["call", 1]]
+                        h += [["tick"]] * max(gap, rt + 1) + [["call", 1]]          # the evicting call (or the last retry)
+                        if back == "up-at-once":
+                            h.append(["health", 1, "up"])
+                        h += [["call", 1], ["call", 2]]
+                        h += [["tick"]] * wait + [["call", 2], ["call", 1]]
+                        if back == "up-late":
+                            h.append(["health", 1, "up"])
+                        for _ in range(ra + 3):
+                            h += [["tick"]] * (rt + 1) + [["call", 1]]
+                        h += [["tick"]] * dt + [["call", 1], ["tick"], ["call", 1]] + [["tick"]] * (dt + 1) + [["call", 1], ["call", 2]]
+                        out.append((2, ra, rt, dt, h))
+    return out
+
+
 def main(tier, rep):
     vclock.install()
     common.import_repo()
@@ -331,6 +358,10 @@ CHECK_DEADLOCK FALSE
         ra = rnd.choice([0, 1, 2])
         rt, dt = rnd.choice([(1, 2), (2, 4), (1, 3), (1, 6), (1, 9), (2, 9)])
         traces.append(replay(random_hist(rnd, n, rnd.randrange(60, 121)), n, ra, rt, dt, rnd.random() < 0.5, i))
+    tg = targeted_hists()
+    for i, (n, ra, rt, dt, h) in enumerate(tg):
+        traces.append(replay(h, n, ra, rt, dt, i % 2 == 1, i))
+    rep.set("targeted_eviction_revival_histories", len(tg))
     acc, rej, st, _ = tlc.validate_traces("FailoverTrace", [{"h": t["h"], "ev": t["ev"]} for t in traces], chunk=2500)
     rep.set("traces_validated_against_impl", len(traces))
     rep.set("trace_states", st)
